@@ -341,6 +341,17 @@ impl World {
             return self.soft(&["C13"], "codec-reencode-differs-msk", "re-encoding the decoded MSK differs from the serialized bytes".into());
         }
         self.compare_structure(&wm.structure, &self.m.structure.clone(), "msk")?;
+        // the listing accessors of the live object agree with the model too
+        {
+            let got_d: BTreeSet<String> = self.msk.access_structure.dimensions().map(|d| d.to_string()).collect();
+            let want_d: BTreeSet<String> = self.m.structure.dims.iter().map(|d| d.name.clone()).collect();
+            let got_a: BTreeSet<(String, String)> = self.msk.access_structure.attributes().map(|q| (q.dimension, q.name)).collect();
+            let want_a: BTreeSet<(String, String)> = self.m.structure.dims.iter().flat_map(|d| d.attrs.iter().map(move |a| (d.name.clone(), a.name.clone()))).collect();
+            let n_a = self.msk.access_structure.attributes().count();
+            if got_d != want_d || got_a != want_a || n_a != want_a.len() {
+                return self.soft(&["C03", "C13"], "structure-accessors", format!("dimensions() / attributes() list {got_d:?} / {} attributes, model has {want_d:?} / {}", n_a, want_a.len()));
+            }
+        }
         // rights
         let mut expected: BTreeMap<Vec<u8>, (&RightM, &Vec<MRev>)> = BTreeMap::new();
         for (r, chain) in &self.m.rights {
@@ -1703,7 +1714,7 @@ impl World {
         let bytes = ser(&self.usks[ui].key).map_err(Abort::Violation)?;
         let Ok(mut wu) = WUsk::decode(&bytes) else { return Ok(()) };
         let what;
-        match kind % 7 {
+        match kind % 9 {
             5 => {
                 // strip the signature
                 wu.signature = None;
@@ -1766,6 +1777,25 @@ impl World {
                 wu.rights = wo.rights;
                 what = "splice-rights-of-other-key";
             }
+            7 => {
+                // change the last marker of the id (the one derived from the others)
+                if let Some(m) = wu.id.last_mut() {
+                    m[1] ^= 4;
+                }
+                what = "alter-last-marker";
+            }
+            8 => {
+                // a genuine key of an unrelated authority
+                let other = || -> Option<Vec<u8>> {
+                    let (mut m2, _) = self.cc.setup().ok()?;
+                    let k = self.cc.generate_user_secret_key(&mut m2, &AccessPolicy::Broadcast).ok()?;
+                    ser(&k).ok()
+                };
+                let Some(b) = other() else { return Ok(()) };
+                let Ok(w2) = WUsk::decode(&b) else { return Ok(()) };
+                wu = w2;
+                what = "key-of-another-master-key";
+            }
             _ => {
                 // change one marker of the id
                 if let Some(m) = wu.id.first_mut() {
@@ -1783,7 +1813,9 @@ impl World {
         self.events.insert("forged-refresh");
         if r.is_ok() {
             // restore the world: the real MSK may have been touched; report
-            return self.fail(&["C08", "C09"], &format!("forged-key-accepted:{what}"), format!("refresh accepted a forged user key ({what})"));
+            // an altered or foreign identifier is one the master key does not know [C17]
+            let props: &[&str] = if matches!(what, "alter-id" | "alter-last-marker" | "key-of-another-master-key") { &["C08", "C09", "C17"] } else { &["C08", "C09"] };
+            return self.fail(props, &format!("forged-key-accepted:{what}"), format!("refresh accepted a forged user key ({what})"));
         }
         self.msk_untouched(&before_msk, "refresh_usk", "forged")?;
         self.usk_untouched(&forged_bytes, &forged, "refresh_usk", "forged")?;
